@@ -561,10 +561,30 @@ pub fn run(_params: &Params) {
           }
         }
       }
+      // ... or with its one credentialSubject as a one-element array (JSON-LD compaction with a set container): the VC
+      // data model makes no difference between a value and a one-element set
+      let mut subject_in_array = false;
+      if ctx::choose(10) == 0 {
+        if let Ok(mut v) = serde_json::from_str::<serde_json::Value>(&served_json) {
+          if let Some(subject) = v.get("credentialSubject").filter(|s| s.is_object()).cloned() {
+            v["credentialSubject"] = serde_json::Value::Array(vec![subject]);
+            served_json = v.to_string();
+            subject_in_array = true;
+            ctx::stat("fault.host.list_served_with_subject_in_array");
+          }
+        }
+      }
       let list_cred = match StatusList2021Credential::from_json(&served_json) {
         Ok(c) => c,
         Err(e) => {
-          if respelled {
+          if subject_in_array {
+            ctx::violation(
+              "C12",
+              "C12.reported_status",
+              "list-with-subject-as-one-element-array/not-readable",
+              format!("the status list credential served with its one credentialSubject as a one-element array is refused: {e}"),
+            );
+          } else if respelled {
             ctx::violation(
               "C12",
               "C12.reported_status",
